@@ -97,6 +97,20 @@ def Diff.storageAt (d : Diff) (a : Addr) (k : Slot) : Option Val :=
 def Diff.touched (d : Diff) : List Addr :=
   d.deployed.map (·.1) ++ d.replaced.map (·.1) ++ d.nonces.map (·.1) ++ d.storage.map (·.1)
 
+/-- keys of an association list are pairwise distinct -/
+def nodupKeys {β : Type} : List (Nat × β) → Bool
+  | [] => true
+  | p :: r => !(r.any (fun q => q.1 == p.1)) && nodupKeys r
+
+/-- executable form of the well-formedness the theorems assume (`Diff.WF` in the proofs): sections
+are maps, no contract both deployed and replaced, system contracts only receive storage writes -/
+def Diff.wfb (d : Diff) : Bool :=
+  nodupKeys d.storage && d.storage.all (fun p => nodupKeys p.2) && nodupKeys d.nonces &&
+  nodupKeys d.deployed && nodupKeys d.replaced &&
+  d.deployed.all (fun p => !(d.replaced.any (fun q => q.1 == p.1))) &&
+  d.deployed.all (fun p => !isSystem p.1) && d.replaced.all (fun p => !isSystem p.1) &&
+  d.nonces.all (fun p => !isSystem p.1)
+
 /-! ## The definition in the property: the abstract state is the fold of the diffs -/
 
 structure AbsSt where
@@ -274,8 +288,15 @@ def sib (k : Slot) : Slot := if k % 2 = 0 then k + 1 else k - 1
 
 /-- `stateObject.commit`: keys in DESCENDING order, `tr.Update(key, val)` each; second component:
 the leaf nodes on disk after the node set is flushed. -/
+def insertDesc (e : Slot × Val) : List (Slot × Val) → List (Slot × Val)
+  | [] => [e]
+  | x :: r => if x.1 ≤ e.1 then e :: x :: r else x :: insertDesc e r
+
+/-- `slices.SortFunc(keys, b.Cmp(a))`: descending keys -/
+def sortDesc (l : List (Slot × Val)) : List (Slot × Val) := l.foldr insertDesc []
+
 def applySlots (cfg : Cfg) (t lv : Leaves) (slots : List (Slot × Val)) : Leaves × Leaves :=
-  (slots.mergeSort (fun x y => decide (y.1 ≤ x.1))).foldl
+  (sortDesc slots).foldl
     (fun (acc : Leaves × Leaves) (e : Slot × Val) =>
       let present := (alook acc.1 e.1).isSome
       let lv' :=
@@ -474,23 +495,23 @@ def LState.deploy (s : LState) (b : Nat) (l : List (Addr × CHash)) : LState :=
            nonce := l.foldl (fun m p => bset m p.1 (some 0)) s.nonce,
            deployHeight := l.foldl (fun m p => bset m p.1 (some b)) s.deployHeight }
 
-/-- `replaceContract` (+ log of the old class hash when `log`) -/
-def LState.replaceAll (s : LState) (log : Bool) (b : Nat) (l : List (Addr × CHash)) : LState :=
-  l.foldl (fun s p =>
-    match bget s.classHash p.1 with
-    | some old =>
-      { s with classHash := bset s.classHash p.1 (some p.2),
-               logs := if log then histPut s.logs (.classHash p.1) b old else s.logs }
-    | none => s) s
+/-- one `replaceContract` / `updateContractNonce`: set the value and (when `log`) write the OLD
+value to the history bucket at block `b`; fails silently here — the guard is in `updateContracts` -/
+def logSetStep (K : Addr → HKey) (log : Bool) (b : Nat) (x : Bucket Addr Nat × Bucket HKey Hist) (p : Addr × Nat) :
+    Bucket Addr Nat × Bucket HKey Hist :=
+  match bget x.1 p.1 with
+  | some old => (bset x.1 p.1 (some p.2), if log then histPut x.2 (K p.1) b old else x.2)
+  | none => x
 
-/-- `updateContractNonce` (+ log of the old nonce when `log`) -/
+/-- `replaceContract` for every entry (+ log of the old class hash when `log`) -/
+def LState.replaceAll (s : LState) (log : Bool) (b : Nat) (l : List (Addr × CHash)) : LState :=
+  let r := l.foldl (logSetStep HKey.classHash log b) (s.classHash, s.logs)
+  { s with classHash := r.1, logs := r.2 }
+
+/-- `updateContractNonce` for every entry (+ log of the old nonce when `log`) -/
 def LState.nonceAll (s : LState) (log : Bool) (b : Nat) (l : List (Addr × Val)) : LState :=
-  l.foldl (fun s p =>
-    match bget s.nonce p.1 with
-    | some old =>
-      { s with nonce := bset s.nonce p.1 (some p.2),
-               logs := if log then histPut s.logs (.nonce p.1) b old else s.logs }
-    | none => s) s
+  let r := l.foldl (logSetStep HKey.nonce log b) (s.nonce, s.logs)
+  { s with nonce := r.1, logs := r.2 }
 
 /-- "make sure all system contracts are deployed": `putNewContract(addr, 0, b)` for the system
 contracts in the storage diffs that are not deployed -/
@@ -507,10 +528,14 @@ def legacySlots (log : Bool) (b : Nat) (a : Addr) (t : Leaves) (lg : Bucket HKey
     (tput acc.1 e.1 e.2, if logged then histPut acc.2 (.storage a e.1) b (old.getD 0) else acc.2))
     (t, lg)
 
+def storageStep (log : Bool) (b : Nat) (x : Bucket Addr Leaves × Bucket HKey Hist) (p : Addr × List (Slot × Val)) :
+    Bucket Addr Leaves × Bucket HKey Hist :=
+  let r := legacySlots log b p.1 (lget x.1 p.1) x.2 p.2
+  (lset x.1 p.1 r.1, r.2)
+
 def LState.storageAll (s : LState) (log : Bool) (b : Nat) (l : List (Addr × List (Slot × Val))) : LState :=
-  l.foldl (fun s p =>
-    let r := legacySlots log b p.1 (lget s.trie p.1) s.logs p.2
-    { s with trie := lset s.trie p.1 r.1, logs := r.2 }) s
+  let r := l.foldl (storageStep log b) (s.trie, s.logs)
+  { s with trie := r.1, logs := r.2 }
 
 /-- `updateContracts` with its guards -/
 def LState.updateContracts (s : LState) (log : Bool) (b : Nat)
@@ -539,13 +564,19 @@ def LState.storageHead (s : LState) (a : Addr) (k : Slot) : Val := tget (lget s.
 def LState.reverseStorage (s : LState) (b : Nat) (d : Diff) : List (Addr × List (Slot × Val)) :=
   d.storage.map (fun p => (p.1, p.2.map (fun e =>
     (e.1, if b = 0 then 0 else
-      match legacyValueAt (lget s.logs (.storage p.1 e.1)) (b - 1) with
-      | some v => v
-      | none => s.storageHead p.1 e.1))))
+      -- `ErrCheckHeadState` → the head value
+      (legacyValueAt (lget s.logs (.storage p.1 e.1)) (b - 1)).getD (s.storageHead p.1 e.1)))))
 
+/-- `purgeContract` -/
 def LState.purge (s : LState) (a : Addr) : LState :=
   { s with deployHeight := bset s.deployHeight a none, nonce := bset s.nonce a none,
            classHash := bset s.classHash a none }
+
+/-- `purgeContract` for each contract the reverted block deployed -/
+def LState.purgeAll (s : LState) (l : List (Addr × CHash)) : LState :=
+  { s with deployHeight := l.foldl (fun m p => bset m p.1 none) s.deployHeight,
+           nonce := l.foldl (fun m p => bset m p.1 none) s.nonce,
+           classHash := l.foldl (fun m p => bset m p.1 none) s.classHash }
 
 def logsDelAll (h : Bucket HKey Hist) (b : Nat) (d : Diff) : Bucket HKey Hist :=
   let h := d.storage.foldl (fun h p => p.2.foldl (fun h e => histDel h (.storage p.1 e.1) b) h) h
@@ -570,8 +601,7 @@ def LState.revert (s : LState) (b : Nat) (d : Diff) : Except Err LState :=
   | .error e => .error e
   | .ok s3 =>
     if d.deployed.any (fun p => (bget s3.classHash p.1).isNone) then .error .notDeployed else
-    let s4 := d.deployed.foldl (fun s p => s.purge p.1) s3
-    .ok s4.purgeSystem
+    .ok (s3.purgeAll d.deployed).purgeSystem
 
 def LState.headRead (s : LState) : Query → Res
   | .classHash a => match bget s.classHash a with | some c => .ok c | none => .notfound
@@ -600,9 +630,8 @@ def LState.histRead (s : LState) (n : Nat) : Query → Res
       | none => s.headRead (.nonce a)
     else .notfound
   | .storage a k =>
-    let v := match legacyValueAt (lget s.logs (.storage a k)) n with
-      | some v => v
-      | none => s.storageHead a k
+    -- `ErrCheckHeadState` → the head value
+    let v := (legacyValueAt (lget s.logs (.storage a k)) n).getD (s.storageHead a k)
     -- "a non-zero value proves a write at or before n": skip the deployment probe
     if v != 0 then .ok v
     else if s.deployedAt a n then .ok v else .notfound
